@@ -14,7 +14,7 @@ CHECKS = {
         "race_probe": {"harness": "c16race", "budget": {"quick": 5, "thorough": 60}},
     "level": "exploration",
         "budget": {"quick": 20, "thorough": 600},
-        "rule": "one evaluation = one seeded simulated run: generated workload (implementation x capacity in {-1,0,1,2,3,4,6} x 1-4 clients x 2-16 ops over 2-5 keys, unique put values) under a seeded schedule (random / PCT / sticky, drawn per run) of the instrumented cache package. "
+        "rule": "one evaluation = one seeded simulated run: generated workload (implementation x capacity in {-1,0,1,2,3,4,6} x 1-4 clients x 2-16 ops over 2-5 keys, unique put values; one workload in twelve is a bulk one: capacity 16-2600 (also +-2 around powers of two), 1-2 clients issuing fill / touch / drain range operations over capacity+1..1.5*capacity keys) under a seeded schedule (random / PCT / sticky, drawn per run) of the instrumented cache package. "
                 "A run is non-trivial if at least one scheduler decision with >=2 runnable tasks switched tasks (or a fault fired); distinct = distinct hashes of (workload, sequence of (task, source site) scheduling decisions), counted over all workers (per-worker cap 2M, so a lower bound).",
         "real": ["cache.Sieve", "cache.NonExpiringMapCache", "cache.Stats (all instrumented: RWMutex -> simsync, atomics yield)"],
         "stubs": [],
@@ -32,7 +32,7 @@ CHECKS["C17"] = {
     "packages": ["traversal", "util", "util/channels", "util/atomics", "graph", "ops", "graphcache", "cardinality", "cache"],
     "level": "exploration",
     "budget": {"quick": 30, "thorough": 900},
-    "rule": "one evaluation = one seeded simulated run of the instrumented traversal stack: (a) BreadthFirst over a random digraph (<=6 nodes, <=10 edges, self loops, cycles, parallel edges), 1-4 workers, closure driver with depth bound or the real pattern driver over simdb cursors, optional fault (driver/visitor/ReadTransaction/cursor error on the k-th arrival, 1-byte memory limit, caller cancel at scheduler step k, deadline on the simulated clock with slow drivers); (b) BufferedPipe with 1-2 writers, eager/late/stopping reader, optional cancel; (c) the sequential helpers (TraversePaths, AcyclicTraverseNodes, AcyclicTraverseTerminals, TraverseIntermediaryPaths, both directions, skip/limit) over simdb with the real cursor goroutines and cursor-error faults, against maximal-simple-path / reachability ground truth. "
+    "rule": "one evaluation = one seeded simulated run of the instrumented traversal stack: (a) BreadthFirst over a random digraph (<=6 nodes, <=10 edges, self loops, cycles, parallel edges), 1-4 workers, closure driver with depth bound or the real pattern driver over simdb cursors, optional fault (driver/visitor/ReadTransaction/cursor error on the k-th arrival - optionally also on the next 1-8 arrivals - each failing call returning the next of seven error shapes: sentinel, %w-wrapped, typed, joined with or wrapping context.DeadlineExceeded / context.Canceled / graph.ErrContextTimedOut while the context is alive, 1-byte memory limit, caller cancel at scheduler step k, deadline on the simulated clock with slow drivers); (b) BufferedPipe with 1-2 writers, eager/late/stopping reader, optional cancel; (c) the sequential helpers (TraversePaths, AcyclicTraverseNodes, AcyclicTraverseTerminals, TraverseIntermediaryPaths, both directions, skip/limit) over simdb with the real cursor goroutines and cursor-error faults, against maximal-simple-path / reachability ground truth. "
             "Non-trivial = at least one contended scheduler decision switched tasks or a fault fired; distinct = distinct hashes of (workload, (task, site) decision sequence), union over workers (per-worker cap 2M: lower bound).",
     "real": ["traversal.BreadthFirst + pattern driver", "util/channels (Submit, Receive, BufferedPipe)", "util.ErrorCollector", "util/atomics", "graph.PathSegment/Tree", "graph.ResultIterator", "ops", "graphcache", "cardinality wrappers (all instrumented)"],
     "stubs": ["simdb (in-memory graph.Database; cursors through the real graph.NewResultIterator)", "harness-side closure driver / visitors"],
@@ -53,7 +53,7 @@ CHECKS["C13"] = {
     "race_probe": {"harness": "c13race", "budget": {"quick": 5, "thorough": 60}},
     "level": "exploration",
     "budget": {"quick": 25, "thorough": 600},
-    "rule": "one evaluation = one seeded simulated run over the instrumented cardinality package: width 32 or 64, 3-7 providers (bitmap / threadSafe(bitmap), owned or shared, seeded from dense, sparse, 2^16-, 2^32- and max-adjacent values), 1-3 clients x 3-15 ops (add/remove/contains/checkedadd/cardinality/slice/each/clear/clone+edit/or/and/andnot/xor with every receiver x operand pairing). W1 checks answers against a map model with porcupine (partition per receiver), plus an audit of every provider at quiescence; W2 makes wrappers receivers and operands of each other concurrently and checks termination and that no element appears that nobody added. "
+    "rule": "one evaluation = one seeded simulated run over the instrumented cardinality package: width 32 or 64, 3-7 providers (bitmap / threadSafe(bitmap), owned or shared, seeded from dense, sparse, 2^16-, 2^32- and max-adjacent values), 1-3 clients x 3-15 ops (add/remove/contains/checkedadd/cardinality/slice/each/clear/clone+edit/or/and/andnot/xor with every receiver x operand pairing). W1 checks answers against a map model with porcupine (partition per receiver), plus an audit of every provider at quiescence; One workload in thirty is a large concurrent one (a small shared receiver combined with a frozen wrapper of 5000-70000 values while a second caller edits the receiver; one Add of 5000-140000 values while another caller observes or clears the same set; interleaving at the wrapper locks). W2 makes wrappers receivers and operands of each other concurrently and checks termination and that no element appears that nobody added. "
             "Non-trivial = a contended scheduler decision switched tasks; distinct = distinct (workload, decision sequence) hashes, union over workers (cap 2M per worker: lower bound).",
     "real": ["cardinality.bitmap32", "cardinality.bitmap64", "cardinality.threadSafeDuplex (instrumented: Mutex -> simsync)", "RoaringBitmap roaring + roaring64 (real code; a patched copy of the module with a scheduling point at every function entry, seeded 0.2-10% subset active per run, so callers that a broken wrapper lets into one bitmap interleave inside it)"],
     "stubs": [],
@@ -62,7 +62,7 @@ CHECKS["C13"] = {
         "self-operands (a.Or(a)) are excluded: the statement says 'any other duplex provider'",
         "Slice/Each order is not asserted, only the set",
     ],
-    "expected_probes": ["w2_runs", "large_set_runs", "sequential_histories"],
+    "expected_probes": ["w2_runs", "large_set_runs", "sequential_histories", "large_concurrent_runs"],
 }
 
 CHECKS["C15"] = {
@@ -103,7 +103,7 @@ CHECKS["C18"] = {
     "level": "exploration",
     "budget": {"quick": 25, "thorough": 600},
     "gomaxprocs": "1",
-    "rule": "one evaluation = one seeded fault-free round trip through the real retriever under the simulated file system: database of 1-3 graphs (names with spaces, unicode, '/', dots), 0-8 nodes with id gaps and 0-3 kinds, 0-12 relationships (parallel, self loops), JSON-domain property values; codec none/gzip/zstd; shard and batch sizes in {1,2,3,5,n,n+1}; path directory / tar+UnpackTar / encrypted archive+Unpack / Load(ArchiveReader); independent load batch size; benign short reads. "
+    "rule": "one evaluation = one seeded fault-free round trip through the real retriever under the simulated file system: database of 1-3 graphs (names with spaces, unicode, '/', dots; one time in three a group of confusable names differing only in case, escaping, Unicode normalisation or a trailing blank), 0-8 nodes with id gaps and 0-3 kinds, 0-12 relationships (parallel, self loops), JSON-domain property values; codec none/gzip/zstd; shard and batch sizes in {1,2,3,5,n,n+1}; path directory / tar+UnpackTar / encrypted archive+Unpack / Load(ArchiveReader); independent load batch size; benign short reads; one workload in a hundred is a wide graph with 257-556 distinct kind combinations, one in 3000 with more than 65536. The manifest's per-fragment counts and sizes are recomputed from the files and every metrics histogram is compared (number of classes, sorted counts) with one computed from the source. "
             "Every run is non-trivial (a real dump and load); distinct = distinct workload hashes, union over workers.",
     "real": ["retriever (Dump, fragments, manifest, tar, encrypted archive, Unpack, Load, Verify, metrics)", "archive/tar", "compress/gzip", "crypto/hpke", "klauspost/compress/zstd"],
     "stubs": ["simdb (source and target graph.Database)", "simos (pass-through interposer, benign short reads)", "short-read stream wrapper"],
@@ -123,7 +123,7 @@ CHECKS["C19"] = {
     "level": "fault_enumeration",
     "budget": {"quick": 40, "thorough": 1200},
     "gomaxprocs": "1",
-    "rule": "one evaluation = one execution of the real Dump (or resume) under the simulated disk. Per seeded workload (1-2 graphs, <=6 nodes, <=6 relationships, codec, shard/batch sizes) a logged fault-free reference run defines the operation space (every mutating file-system call: open, write, close, rename, remove, mkdir); then either a full sweep (crash before every operation, plus one torn-write offset inside every write) or one sampled fault: crash at operation k (optionally torn write at byte j), up to 2 further crashes during successive resumes, EIO/EACCES/ENOSPC(short write) on operation k, read fault during resume validation, database error or context cancellation at database call k; after every fault the durable image is checked (I1), resume is run and checked (O1/O2), and in sampled runs one negative resume (changed codec/level/shard/batch/targets/driver, count-changing source edit of a snapshotted graph, stray file, flipped/truncated/removed/swapped committed fragment) must be refused. "
+    "rule": "one evaluation = one execution of the real Dump (or resume) under the simulated disk. Per seeded workload (1-2 graphs, <=6 nodes, <=6 relationships, codec, shard/batch sizes) a logged fault-free reference run defines the operation space (every mutating file-system call: open, write, close, rename, remove, mkdir); then either a full sweep (crash before every operation, plus one torn-write offset inside every write) or one sampled fault: crash at operation k (optionally torn write at byte j), up to 2 further crashes during successive resumes, EIO/EACCES/ENOSPC(short write) on operation k, read fault during resume validation, database error or context cancellation at database call k; after every fault the durable image is checked (I1), resume is run and checked (O1/O2), and in sampled runs one negative resume (changed codec/level/shard/batch/targets/driver/salt/scrub mode/scrub configuration file [reordered rules, a changed pattern, a changed preserved key], optionally with one transient database error during that resume, count-changing source edit of a snapshotted graph, stray file, flipped/truncated/removed/swapped committed fragment) must be refused. "
             "Non-trivial = every case (a fault is always injected); distinct = distinct (workload, fault position, nested positions, negative variant, resume outcome) hashes, union over workers.",
     "real": ["retriever.Dump incl. checkpoint protocol, fragment writers, manifest, resume validation", "retriever.Load / Verify (inside the oracle)", "compress/gzip, klauspost zstd"],
     "stubs": ["simos (crash = freeze, errno injection, torn/short writes, read faults)", "simdb (source with call-error and cancellation hooks; fresh target for the oracle)"],
@@ -134,7 +134,7 @@ CHECKS["C19"] = {
         "stray files use names that are not one of the temp names resume documents cleaning up",
     ],
     "expected_probes": ["crashes_injected", "torn_writes", "nested_crashes_injected", "resume_completed", "resume_refused_or_failed", "image_complete_with_manifest", "db_errors_injected", "cancellations_injected", "partial_cursors_injected", "full_sweeps",
-                        "negative_opt_codec", "negative_src_add_node", "negative_stray_file", "negative_frag_flip", "negative_frag_swap"],
+                        "negative_opt_codec", "negative_src_add_node", "negative_stray_file", "negative_frag_flip", "negative_frag_swap", "negative_opt_scrubcfg", "negative_resume_with_transient_db_error"],
     "vacuity_counter": "resume_completed",
 }
 
@@ -147,7 +147,7 @@ CHECKS["C20"] = {
     "level": "fault_enumeration",
     "budget": {"quick": 40, "thorough": 1200},
     "gomaxprocs": "1",
-    "rule": "one evaluation = one consumer call on one mutated artefact. Per seeded workload a small dump is produced in every shape (directory, plain tar, encrypted archive with key pair, key envelopes) and then either 30 sampled mutations or a full position sweep (every byte offset x one seeded bit, every truncation length) of one artefact/consumer pair are applied: fragment byte/truncate/extend/swap/remove, manifest byte/truncate and structured field edits (count, compressed_bytes, sha256, path, phase, codec, graph_count, node_count, metrics dropped/edited), archive byte/truncate/extend, frame swap/duplicate/drop/drop-final/type flip, wrong key, reader error after n bytes, hostile tar entries (absolute, parent, volume, backslash, blank-padded, symlink, hardlink, directory, device, fifo, duplicates, PAX long names) placed at any entry position, tampered collections inside a correctly encrypted archive, malformed key envelopes; consumers Load(dir), UnpackTar->Load, UnpackEncryptedCollectionArchive, Unpack (output dir absent/empty/non-empty+force), Load(ArchiveReader), ReadArchivePrivateKey/PublicKey. "
+    "rule": "one evaluation = one consumer call on one mutated artefact. Per seeded workload a small dump is produced in every shape (directory, plain tar, encrypted archive with key pair, key envelopes) and then either 30 sampled mutations or a full position sweep (every byte offset x one seeded bit, every truncation length) of one artefact/consumer pair are applied: fragment byte/truncate/extend (1 byte, 2 bytes, 5 KB, a well-formed second member of the codec; one workload in fifteen pads a property until a fragment's size on disk is a multiple of 512/4096/32768/65536 and aims the extensions at it)/swap/remove, manifest byte/truncate and structured field edits (count, compressed_bytes, sha256, path, phase, codec, graph_count, node_count, cancelling node/edge count shifts between two graphs, metrics dropped/edited), archive byte/truncate/extend, frame swap/duplicate/drop/drop-final/type flip, wrong key, reader error after n bytes, hostile tar entries (absolute, parent, volume, backslash, blank-padded, symlink, hardlink, directory, device, fifo, duplicates, PAX long names) placed at any entry position, tampered collections inside a correctly encrypted archive, malformed key envelopes; consumers Load(dir), UnpackTar->Load, UnpackEncryptedCollectionArchive, Unpack (output dir absent/empty/non-empty+force), Load(ArchiveReader), ReadArchivePrivateKey/PublicKey. "
             "Every case injects a fault; distinct = distinct (workload, consumer, mutation, position) hashes, union over workers.",
     "real": ["retriever Load / verifyLoadFragments / manifest validation", "UnpackTar, sanitizeArchivePath", "encrypted archive reader/writer (HPKE frames)", "Unpack staging/promotion", "key envelope readers", "archive/tar, crypto/hpke, gzip, zstd"],
     "stubs": ["simos (containment of every mutating call, allowed root = the requested output directory's parent sandbox)", "simdb (mutation log = 'before any node or relationship is written')", "fault-injecting io.Reader"],
@@ -157,7 +157,7 @@ CHECKS["C20"] = {
         "a plain tar stream is not authenticated: UnpackTar->Load is judged as a pipeline (some step fails before any write, or the right graph is loaded)",
         "no-partial-output (H5) is asserted for the staged entry points Unpack and Load(ArchiveReader); the direct extractors get containment and reject-before-write only",
     ],
-    "expected_probes": ["rejected", "accepted_with_correct_graph", "full_position_sweeps", "hostile_symlink", "hostile_parent", "hostile_absolute", "unpack_frame_swap", "loadarchive_wrongkey", "loaddir_mf_sha", "key_swaptype"],
+    "expected_probes": ["rejected", "accepted_with_correct_graph", "full_position_sweeps", "hostile_symlink", "hostile_parent", "hostile_absolute", "unpack_frame_swap", "loadarchive_wrongkey", "loaddir_mf_sha", "key_swaptype", "loaddir_mf_count_shift", "extensions_of_buffer_aligned_fragment"],
 }
 
 CHECKS["C05"] = {
@@ -168,7 +168,7 @@ CHECKS["C05"] = {
     "race_probe": {"harness": "c05race", "budget": {"quick": 5, "thorough": 60}},
     "level": "exploration",
     "budget": {"quick": 30, "thorough": 600},
-    "rule": "one evaluation = one seeded simulated run: 2-5 tasks translate queries from the repository's own corpus (-- case: lines of cypher/models/pgsql/test/translation_cases/*.sql read from /repo at run time, with their parameter blocks, plus 4 extra queries); two thirds of the tasks share ONE AST value and ONE parameter map; all share one kind mapper; a task may get a mapper error or a context cancellation on its k-th mapper call. translate/optimize/format/walk/cypher are instrumented with a scheduling point at every function entry, so the seeded scheduler interleaves concurrent translations at function granularity. "
+    "rule": "one evaluation = one seeded simulated run: 2-5 tasks translate queries from the repository's own corpus (-- case: lines of cypher/models/pgsql/test/translation_cases/*.sql read from /repo at run time, with their parameter blocks, plus 4 extra queries); two thirds of the tasks share ONE AST value and ONE parameter map; all share one kind mapper; a task may get a mapper error or a context cancellation on its k-th mapper call (every task has its own context). The solo reference of every query is also repeated against ONE stateful pgutil.InMemoryKindMapper with 1000 and 70000 other kind names interned in between (process history must not matter). translate/optimize/format/walk/cypher are instrumented with a scheduling point at every function entry, so the seeded scheduler interleaves concurrent translations at function granularity. "
             "Non-trivial = a contended decision switched tasks or a fault fired; distinct = distinct (workload, decision sequence) hashes, union over workers (cap 2M per worker).",
     "real": ["cypher/frontend (parse)", "pgsql/optimize", "pgsql/translate", "pgsql/format", "models/walk", "cypher.Copy (instrumented: yield at every function entry)"],
     "stubs": ["sim kind mapper (pure function of the kind name; scheduling + fault point)"],
